@@ -48,7 +48,7 @@ int rigid_body_modes(int ndim, const Vector &coo, std::vector<double> &B, bool t
 
     size_t n = coo.size();
     int nmodes = (ndim == 2 ? 3 : 6);
-    B.resize(n * nmodes, 0.0);
+    B.assign(n * nmodes, 0.0);
 
     const int stride1 = transpose ? 1 : nmodes;
     const int stride2 = transpose ? n : 1;
